@@ -770,7 +770,9 @@ class ContextStateTransaction(_TransactionBase):
             # prevent this for simplicity reasons
             raise ApiUsageError('Transaction only handles context states!')
 
-        if state_container.Handle is not None:
+        if state_container.Handle is None:
+            state_container.Handle = uuid.uuid4().hex
+        else:
             if state_container.Handle in self._state_updates:
                 msg = f'Context State {state_container.Handle} already in updated set!'
                 raise ValueError(msg)
